@@ -1,6 +1,7 @@
 package props
 
 import (
+	"encoding/json"
 	"fmt"
 	"reflect"
 
@@ -254,12 +255,28 @@ func c08Run(c *mon.Ctx) {
 	}
 }
 
+func c08Replay(kind string, raw json.RawMessage) (bool, string) {
+	var cs c08Case
+	if err := json.Unmarshal(raw, &cs); err != nil {
+		return false, err.Error()
+	}
+	p := mon.Lookup("C08")
+	// the option sets are drawn from the case index; try a spread of indexes
+	var n int64
+	var first string
+	for i := 0; i < 24 && n == 0; i++ {
+		n, _, first = mon.ReplayRun(p, func(c *mon.Ctx) { c08Doc(c, cs.Text, i) })
+	}
+	return n > 0, fmt.Sprintf("violations=%d %s", n, first)
+}
+
 func init() {
 	mon.Register(&mon.Prop{
 		ID:          "C08",
 		Rule:        "grammar-generated documents (all types, Circle convention, polygons in and near the exact rectangle form, out-of-range coordinates at any nesting position, geometries/collections straddling the thresholds) parsed under the default options and under 5-6 option sets drawn from {index thresholds 0,1,n,n+1,64 for children and geometry x index kind None/RTree/QuadTree, AllowSimplePoints, AllowRects, both, RequireValid alone and combined}; observables JSON, Rect, Empty, Valid, NumPoints, Go kind and Contains/Within/Intersects against 14 probes in both operand orders are compared with the default-options object; RequireValid must accept exactly when every object of the default parse tree reports itself valid and must return only valid objects. Non-trivial = distinct accepted text for which some probe predicate is true.",
 		Assumptions: []string{"metamorphic, oracle-free: the default-options parse is the reference", "NumPoints and Go kind are compared only for index options (the representation options may change the Go type; a Rect counts 2 points by design)", "a Circle object stands for the Feature/Point it was written as: its centre decides 'would report itself invalid'"},
 		Run:         c08Run,
+		Replay:      c08Replay,
 		MustSee:     []string{"accepted_by_default", "probe_hits", "requirevalid_rejections", "docs_with_invalid_object", "circle_docs_checked", "representation_changed_kind", "optionset_0", "optionset_5"},
 	})
 }
